@@ -80,6 +80,13 @@ Definition run_c09 (w : wire) : wire :=
            | Some c, _, _, _ => [zn c]
            | _, _, _, _ => [4]
            end)
+      else if op =? 11 then      (* file semantics: labelled flag, ncol, n, labels (n, ignored when unlabelled), last column (n) *)
+      run_dec (do lab <- getN; do ncol <- getN; do n <- getN; do ls <- getNs n; do ws <- getZs n; ret (negb (Nat.eqb lab 0), ncol, ls, map inject_Z ws)) (den :: w')
+        (fun '(lab, ncol, ls, ws) =>
+           match file_weights_matrix Qops lab ncol ls ws with
+           | Some (nb, M) => 0 :: zn nb :: flat_map (fun r => map (fun q => Qnum (Qred q)) r) M
+           | None => [3]
+           end)
       else if op =? 10 then      (* label-based constructor: labels, integer weights *)
       run_dec (do n <- getN; do ls <- getNs n; do ws <- getZs n; ret (ls, map inject_Z ws)) (den :: w')
         (fun '(ls, ws) =>
